@@ -301,6 +301,30 @@ def skiplist_stream(rng, n_ops, max_members):
                 break
     return ops[:n_ops]
 
+
+def skiplist_corners(rng):
+    """arguments outside what SortedSet passes: NaN bounds / NaN scores in queries and removals, rank 0 and beyond, wrong
+    scores in getRank, limits; on small lists of random heights (the witnesses of FINDINGS.md F-A1..F-A3 are among them)"""
+    nan, pinf, ninf = "7ff8000000000000", fbits(float("inf")), fbits(float("-inf"))
+    pool = [fbits(x) for x in (-1, -0.0, 0.0, 1, 1, 2, 5)] + [pinf, ninf]
+    ops = []
+    for rnd in range(12):
+        ops.append("sl new")
+        ms = [hx(b"m"), hx(b"x"), hx(b""), hx(b"a"), hx(b"ab")][:rng.randrange(1, 6)]
+        for m in ms:
+            ops.append(f"sl insert {m} {rng.choice(pool)}")
+        for a in pool[:4] + [nan, pinf, ninf]:
+            for b in (nan, fbits(1), pinf):
+                ops += [f"sl hasInRange {a} {b}", f"sl getFirstInRange {a} {b}", f"sl getLastInRange {a} {b}", f"sl getLastInRange {b} {a}"]
+        for m in ms + [hx(b"zz")]:
+            for sc in (fbits(5), fbits(-1), nan, fbits(1)):
+                ops.append(f"sl getRank {m} {sc}")
+        for r in range(-1, len(ms) + 3):
+            ops.append(f"sl getByRank {r}")
+        ops += [f"sl removeRange {nan} {fbits(1)} 0 {rnd % 4}", f"sl removeRange {fbits(0)} {nan} 1 {rnd % 4}", f"sl remove {ms[0]} {nan}",
+                f"sl removeRangeByRank 0 0", f"sl removeRangeByRank -5 1", f"sl removeRange {ninf} {nan} -3 0", "sl dump"]
+    return ops
+
 SLZ_ENABLED = True      # the model side of the slz ops (Driver) must exist before these streams run
 
 
@@ -493,6 +517,9 @@ def run(ctx, proofs_ok):
         ops = skiplist_stream(ctx.rng, 900 if quick else 4000, mm)
         if vlib.correspond_stream(ctx, h, ops, f"skiplist-{i}", "pointer skiplist: whole-structure comparison after every operation (levels, spans, backward, tail) against Model/Skiplist"):
             break
+    if ctx.violations:
+        return
+    vlib.correspond_stream(ctx, h, skiplist_corners(ctx.rng), "skiplist-corners", "pointer skiplist outside the sorted set's preconditions: NaN bounds and scores, rank 0, wrong scores, limits (witnesses of the work-package findings F-A1..F-A3)")
     if ctx.violations:
         return
     if SLZ_ENABLED:
